@@ -264,10 +264,11 @@ pub struct PtSpec {
     /// milliseconds after the previous one (below the per-packet time-out; their sum may exceed it).
     #[serde(default)]
     pub pace_ms: u32,
-    /// Every packet other than an acknowledgement arrives in two pieces: the first `.0` bytes, then
-    /// `.1` milliseconds of nothing, then the rest (a schedule element, not a fault).
+    /// Packets arrive in two pieces: the first `.0` bytes, then `.1` milliseconds of nothing, then the
+    /// rest (a schedule element, not a fault). `.2` says which packets: 0 = every packet other than an
+    /// acknowledgement, 1 = abort packets (06 1E) only, 2 = packets outside the handshake only.
     #[serde(default)]
-    pub frame_pause: Option<(u8, u32)>,
+    pub frame_pause: Option<(u8, u32, u8)>,
     /// Which intermediate status codes the terminal shows: 0 = the usual four, 1 = unusual ones (41,
     /// 4B, 9C, D2 ...), 2 = 00 / FF, 3 = a mix.
     #[serde(default)]
@@ -706,11 +707,16 @@ impl PtConn {
             pt.identity_sent.push((self.conn, serial, seq));
         }
         let eff = e.effect.clone();
-        let pause = if at_ack { None } else { pt.spec.frame_pause };
+        let pause = match pt.spec.frame_pause {
+            _ if at_ack => None,
+            Some((_, _, 1)) if e.frame.len() < 2 || (e.frame[0], e.frame[1]) != (0x06, 0x1e) => None,
+            Some((_, _, 2)) if self.cur_handshake => None,
+            other => other,
+        };
         drop(pt);
         self.apply_effect(&eff);
         match pause {
-            Some((n, ms)) if (n as usize) < e.frame.len() && n > 0 => {
+            Some((n, ms, _)) if (n as usize) < e.frame.len() && n > 0 => {
                 io.release_after(delay, &e.frame[..n as usize]);
                 io.release_after(ms as u64, &e.frame[n as usize..]);
             }
